@@ -517,6 +517,17 @@ def run_impl(c):
             if c.solver is not None:
                 kw["solver"] = make_solver(c.solver)
             m = pm.SystemOfEquations([sA, s1, s2], **kw)
+            if c.spec["seed"] % 2 == 0 and (np.iscomplexobj(c.bf) or np.iscomplexobj(c.xp) or np.iscomplexobj(c.A)) \
+                    and not (c.sparse and not np.iscomplexobj(c.A)):
+                # the same instance has solved the REAL part of this problem before (same shapes, other dtype): storage kept
+                # between calls must follow the dtype of the current data
+                sA.state, s1.state, s2.state = wrap(np.real(c.A).copy(), c.sparse, c.fmt), np.real(c.bf).copy(), np.real(c.xp).copy()
+                try:
+                    m.response()
+                    m.reset()
+                except Exception:   # (the real part alone may be singular: then there simply is no earlier call)
+                    m = pm.SystemOfEquations([sA, s1, s2], **kw)
+                sA.state, s1.state, s2.state = wrap(c.A, c.sparse, c.fmt), c.bf.copy(), c.xp.copy()
             m.response()
             out["x"], out["b"] = np.array(m.sig_out[0].state), np.array(m.sig_out[1].state)
             if sps.issparse(sA.state) != c.sparse or sA.state.shape != c.A.shape:
